@@ -165,7 +165,8 @@ def configs(tier):
         wide = _write_wide()
         # only contracts whose oracle is range-agnostic (everything goes through `_check`) may be widened mechanically
         widenable = {"int_index", "order_slice", "order_slice_open_start", "order_slice_no_stop", "block_and_order_slices", "list_index",
-                     "order_list", "two_infinite", "two_infinite_slices", "scalar_series", "scalar_series_slice", "wrong_number_of_indices"}
+                     "order_list", "two_infinite", "two_infinite_slices", "scalar_series", "scalar_series_slice", "wrong_number_of_indices",
+                     "three_finite_dims_int", "three_finite_dims_int_last"}
         for name, line in _contracts():
             if name not in widenable:
                 continue
